@@ -249,6 +249,11 @@ class Dimension:
 
     @staticmethod
     def _check_index(index):
+        # every entry has to be a plain number: Fraction(-1) or Decimal(-1)
+        # compare equal to -1 but cannot be stored as the link's index
+        for idx in index:
+            if not isinstance(idx, (int, float, np.integer, np.floating)):
+                return "Invalid linked DataArray index: {!r} is not a number".format(idx)
         invalid_idx_msg = (
             "Invalid linked DataArray index: "
             "One of the values must be -1, indicating the relevant vector. "
